@@ -329,7 +329,27 @@ def _devs_cases():
     def gen_run_for(rng):
         return {"self": {"time": rng.choice([0, 0, 512, 1024, rng.randrange(10**5)])}, "time_delta": rng.choice([0, 1, 512, 1024, -3, rng.randrange(10**4)])}
 
-    return {"Simulator.run_for": (gen_run_for, call_run_for), "EventList.peak_ahead": (gen_peek, call_peek), "SimulationEvent.CANCELED": (lambda rng: {"self": ev(rng, 0)}, lambda a: real(a["self"]).CANCELED),
+    def gen_run_next(rng):
+        evs, _ = events(rng)
+        return {"self": {"time": rng.choice([0, 0, 512, 1024, 4096]), "model": rng.choice([None, 1, 1, 1, 7]), "event_list": {"_events": evs}},
+                "fuel": len(evs) + 1}
+
+    def call_run_next(a):
+        """the real `Simulator.run_next_event` on a real DEVSimulator whose events record their `execute()`"""
+        from mesa.experimental.devs.simulator import DEVSimulator
+        sim, log = DEVSimulator(), []
+        sim.time = a["self"]["time"]
+        sim.model = None if a["self"]["model"] is None else object()
+        sim.event_list._events = [real(d) for d in a["self"]["event_list"]["_events"]]
+        for e in sim.event_list._events:
+            e.execute = (lambda e=e: log.append(back(e)))
+        try:
+            r = sim.run_next_event()
+        except Exception as e:       # noqa: BLE001
+            r = map_exc(e)
+        return (r, list(log), sim.time, [back(e) for e in sim.event_list._events])
+
+    return {"Simulator.run_next_event": (gen_run_next, call_run_next), "Simulator.run_for": (gen_run_for, call_run_for), "EventList.peak_ahead": (gen_peek, call_peek), "SimulationEvent.CANCELED": (lambda rng: {"self": ev(rng, 0)}, lambda a: real(a["self"]).CANCELED),
             "SimulationEvent.__lt__": (gen_pair, lambda a: real(a["self"]) < real(a["other"])),
             "EventList.add_event": (gen_el, call_add), "EventList.pop_event": (gen_el, call_pop),
             "EventList.__len__": (gen_el, lambda a: len(elist(a))), "EventList.is_empty": (gen_el, lambda a: elist(a).is_empty())}
